@@ -62,6 +62,8 @@ func c06Record(id int) Record {
 	return r
 }
 
+func id0(r *Record) bool { return r.AttributesLen()%2 == 1 }
+
 // c06Scramble changes the caller's record through every setter.
 func c06Scramble(r *Record) {
 	r.SetBody(log.StringValue("changed"))
@@ -73,7 +75,8 @@ func c06Scramble(r *Record) {
 	r.SetTraceID(trace.TraceID{0xff})
 	r.SetSpanID(trace.SpanID{0xff})
 	r.SetTraceFlags(0)
-	r.AddAttributes(log.Int("id", -1), log.String("extra", "x"))
+	// overwrite in place: keys held in the inline array and keys held in the `back` slice (shared unless cloned)
+	r.AddAttributes(log.Int("a6", -6), log.Bool("b", id0(r)), log.Int("id", -1), log.String("extra", "x"))
 	r.SetAttributes(log.Int("id", -2), log.String("s", "changed"), log.Int("a2", -2), log.Int("a3", -3),
 		log.Int("a4", -4), log.Int("a5", -5), log.Int("a6", -6), log.Int("a7", -7))
 }
@@ -159,7 +162,12 @@ func (e *c06GateExp) Export(ctx context.Context, recs []Record) error {
 func (e *c06GateExp) Shutdown(context.Context) error   { return nil }
 func (e *c06GateExp) ForceFlush(context.Context) error { return nil }
 
+// c06ArmPark is set by the verif-tagged harness file (hooks in /repo, build tag verif): it arms a one-shot park
+// at the named verifPoint and returns the channel that releases the parked goroutine.
+var c06ArmPark func(name string) chan struct{}
+
 type c06Run struct {
+	parked  map[string]chan struct{}
 	bp      *BatchProcessor
 	exp     *c06GateExp
 	mu      sync.Mutex
@@ -252,8 +260,35 @@ func c06RunSched(capQ, batch, buf int, ops []string, win time.Duration) (cfg [3]
 	bp := NewBatchProcessor(exp, WithMaxQueueSize(capQ), WithExportMaxBatchSize(batch), WithExportBufferSize(buf),
 		WithExportInterval(time.Hour), WithExportTimeout(time.Hour))
 	cfg = [3]int{bp.q.cap, bp.batchSize, cap(bp.exporter.input)}
-	r := &c06Run{bp: bp, exp: exp, ended: map[int]bool{}, ffRes: map[int]string{}, sdRes: map[int]string{}}
+	r := &c06Run{bp: bp, exp: exp, ended: map[int]bool{}, ffRes: map[int]string{}, sdRes: map[int]string{}, parked: map[string]chan struct{}{}}
 	for _, op := range ops {
+		// forced schedules: `p?` arms a park at a hook and starts the call, `r?` releases it
+		if len(op) >= 2 && (op[0] == 'p' || op[0] == 'r') {
+			key := op[1:]
+			if op == "rs" {
+				key = "s"
+			}
+			if op[0] == 'r' {
+				if ch, ok := r.parked[key]; ok {
+					close(ch)
+					delete(r.parked, key)
+				}
+				out = append(out, r.settle(win))
+				continue
+			}
+			if c06ArmPark == nil {
+				panic("forced schedule without the verif build tag")
+			}
+			switch op[1] {
+			case 'e':
+				r.parked[key] = c06ArmPark("blrp.OnEmit.checked")
+			case 'f':
+				r.parked[key] = c06ArmPark("blrp.ForceFlush.checked")
+			case 's':
+				r.parked["s"] = c06ArmPark("blrp.bufferExporter.Export.enter")
+			}
+			op = op[1:]
+		}
 		switch {
 		case op == "g+" || op == "g-":
 			exp.mu.Lock()
@@ -316,7 +351,14 @@ func c06RunSched(capQ, batch, buf int, ops []string, win time.Duration) (cfg [3]
 		}
 		out = append(out, r.settle(win))
 	}
-	// clean up: release every blocked exporter call, shut down, wait for our goroutines
+	// clean up: release every parked goroutine and every blocked exporter call, shut down, wait for our goroutines
+	for k, ch := range r.parked {
+		close(ch)
+		delete(r.parked, k)
+	}
+	if c06ArmPark != nil {
+		c06ArmPark("") // disarm whatever is still armed
+	}
 	done := make(chan struct{})
 	go func() {
 		for {
